@@ -1,7 +1,8 @@
 /-
 C02.7 — the in-flight map / heap windows, over ALL schedules of micro-steps
 (`Nsq.Model.ChanMicro`: answer = mapPop | heapRemove(+completion) [| mapPush | heapPush for TOUCH],
-delivery = mapPush | heapPush, scan = heapPop | mapPop; any steps of other operations may run in
+delivery = mapPush | heapPush, scan = {heapPop + mapPop in one critical section, fix F16} | put; any
+steps of other operations may run in
 between).
 
 The map step (`popInFlightMessage`) is the single decision point: whoever removes the id from the
@@ -11,7 +12,8 @@ model.
 
 Real-code witnesses of these windows (steered with the in-tree hooks, replayed by `./check C02`):
 `corpus/C02/late_answer.ops` (an answer in the delivery window / after a timeout hand-over) and
-`corpus/C02/fin_vs_scan.ops` (FIN against the scan between its heap pop and its map pop).
+`corpus/C02/fin_vs_scan.ops` (FIN parked between its map pop and its heap removal while the scan
+runs: the scan finds the heap entry, not the map entry, and skips it).
 -/
 import Nsq.Proofs.ChanMicro
 namespace Nsq.Props.C02Micro
@@ -41,11 +43,12 @@ theorem loser_answer_noop (s : MS) {id : Nat} (hm : id ∉ s.map) (k : Nat) (a :
 theorem foreign_answer_noop (s : MS) {k id : Nat} (ho : getA s.owner id ≠ k) (a : Ans) :
     step s (.ansMapPop k id a) = (s, .fail) := ansMapPop_foreign s ho a
 
-/-- … and the scan that popped the object from the heap only drops its own pointer (`goto exit`):
-no event, no change of queue, deferred set, map, heap or any message object. -/
+/-- … and the scan that meets a heap entry whose id is no longer in the map (a FIN / REQ / TOUCH got
+there first; checked in the same critical section as the heap pop, fix F16) only drops that stale
+heap entry: no event, no change of queue, deferred set, map, or any message object. -/
 theorem loser_scan_noop (s : MS) {id : Nat} (hm : id ∉ s.map) :
-    (step s (.scanMapPop id)).2 ≠ .ok ∧
-    (step s (.scanMapPop id)).1 = { s with pend := s.pend.erase (Pend.scan id) } := scanMapPop_out s hm
+    (step s (.scanPop id)).2 ≠ .ok ∧
+    (step s (.scanPop id)).1 = { s with heap := s.heap.erase id } := scanPop_out s hm
 
 /-- a successful map pop takes the id out of the map (it is there at most once) -/
 theorem winner_takes_it {s : MS} (h : Reachable s) {id : Nat} {op : Op} (hp : isPopOf id op = true)
@@ -63,7 +66,7 @@ theorem map_pop_is_the_winner {s : MS} (h : Reachable s) (id : Nat) (ops : List 
 answer is accepted, the scan's pop succeeds. -/
 theorem first_contender_wins {s : MS} {id : Nat} (hm : id ∈ s.map) :
     (∀ a, (step s (.ansMapPop (getA s.owner id) id a)).2 = .ok) ∧
-    (Pend.scan id ∈ s.pend → (step s (.scanMapPop id)).2 = .ok) := by
+    (id ∈ s.heap → (step s (.scanPop id)).2 = .ok) := by
   constructor
   · intro a; simp [step, hm]
   · intro hp; simp [step, hm, hp]
@@ -126,49 +129,55 @@ theorem fin_final {s : MS} (h : Reachable s) {h2 h1 : List Ev} {k id : Nat}
   Nsq.Proofs.Chan.hist_fin_final (reachable_minv h).okh hs
 
 /-- the windows never orphan an in-flight message: an id in the map is in the heap, or a pending
-heap push (delivery / TOUCH) will put it there, or the scan that popped it will take it out of the
-map — so the timeout scan can always reach it -/
+heap push (delivery / TOUCH) will put it there — so the timeout scan can always reach it -/
 theorem no_orphan {s : MS} (h : Reachable s) {id : Nat} (hm : id ∈ s.map) :
-    id ∈ s.heap ∨ Pend.push id ∈ s.pend ∨ Pend.scan id ∈ s.pend :=
+    id ∈ s.heap ∨ Pend.push id ∈ s.pend :=
   (reachable_minv h).orph id hm
+
+/-- fix F16 — the scan decides in ONE step: a `timeout` event is recorded only by a step that finds
+the id in the heap and in the map at the same moment; there is no state "popped from the heap, map
+not yet consulted" in which a REQ and a redelivery could slip in (the schedule that made the scan
+time out a fresh delivery needs exactly that state). -/
+theorem scan_decides_at_once (s : MS) (id : Nat) :
+    (step s (.scanPop id)).2 = .ok ↔ (id ∈ s.heap ∧ id ∈ s.map) := by
+  simp only [step]
+  by_cases hh : id ∈ s.heap <;> by_cases hm : id ∈ s.map <;> simp [hh, hm]
 
 /-! ### non-vacuity: the windows are reachable, and the invariant is not `True` -/
 
 /-- late answer in the delivery window: 7 is redelivered to connection 1 after a timeout; between
 the map push and the heap push of that delivery the FIN of connection 1 arrives and is accepted;
 its heap removal finds nothing; the delivery's heap push then leaves a stale heap entry; the scan
-pops it and loses at the map (`corpus/C02/late_answer.ops`). -/
+meets it, finds the map entry gone and skips it (`corpus/C02/late_answer.ops`). -/
 def exLate : List Op :=
-  [.put 7, .delMapPush 1 7, .heapPush 7, .scanHeapPop 7, .scanMapPop 7,
+  [.put 7, .delMapPush 1 7, .heapPush 7, .scanPop 7, .scanPut 7,
    .delMapPush 1 7, .ansMapPop 1 7 .fin, .ansFinish 1 7 .fin, .heapPush 7,
-   .scanHeapPop 7, .scanMapPop 7]
+   .scanPop 7]
 example : (run {} exLate).hist = [.finOk 1 7, .deliver 1 7 2, .timeout 7 1, .deliver 1 7 1, .fanout 7 false] := by decide
 example : (run {} (exLate.take 9)).heap = [7] ∧ (run {} (exLate.take 9)).map = [] := by decide
-example : (step (run {} (exLate.take 10)) (.scanMapPop 7)).2 = .fail := by decide
+example : (step (run {} (exLate.take 9)) (.scanPop 7)).2 = .fail := by decide
 example : run {} exLate = { atts := (run {} exLate).atts, owner := (run {} exLate).owner, hist := (run {} exLate).hist } := by decide
 
-/-- FIN against the scan (`corpus/C02/fin_vs_scan.ops`): the scan popped 7 from the heap; the FIN
-of the holder gets to the map first and wins; the scan's map pop fails; nothing is requeued -/
+/-- FIN against the scan (`corpus/C02/fin_vs_scan.ops`): the FIN of the holder took 7 out of the map
+and is parked before its heap removal; the scan runs, meets the heap entry, finds the map entry
+gone and skips; nothing is requeued -/
 def exFinScan : List Op :=
-  [.put 7, .delMapPush 1 7, .heapPush 7, .scanHeapPop 7, .ansMapPop 1 7 .fin, .scanMapPop 7, .ansFinish 1 7 .fin]
-example : wins 7 (run {} (exFinScan.take 4)) (exFinScan.drop 4) = 1 := by decide
+  [.put 7, .delMapPush 1 7, .heapPush 7, .ansMapPop 1 7 .fin, .scanPop 7, .ansFinish 1 7 .fin]
+example : wins 7 (run {} (exFinScan.take 3)) (exFinScan.drop 3) = 1 := by decide
 example : (run {} exFinScan).hist = [.finOk 1 7, .deliver 1 7 1, .fanout 7 false] ∧ (run {} exFinScan).queue = [] := by decide
-/-- … and the other order: the scan wins, the FIN fails and changes nothing -/
+/-- … and the other order: the scan wins, the FIN fails and changes nothing (also while the scan is
+still between its pop and its `put`) -/
 def exScanFin : List Op :=
-  [.put 7, .delMapPush 1 7, .heapPush 7, .scanHeapPop 7, .scanMapPop 7, .ansMapPop 1 7 .fin]
-example : wins 7 (run {} (exScanFin.take 4)) (exScanFin.drop 4) = 1 := by decide
-example : step (run {} (exScanFin.take 5)) (.ansMapPop 1 7 .fin) = (run {} (exScanFin.take 5), .fail) := by decide
+  [.put 7, .delMapPush 1 7, .heapPush 7, .scanPop 7, .ansMapPop 1 7 .fin, .scanPut 7]
+example : wins 7 (run {} (exScanFin.take 3)) (exScanFin.drop 3) = 1 := by decide
+example : step (run {} (exScanFin.take 4)) (.ansMapPop 1 7 .fin) = (run {} (exScanFin.take 4), .fail) := by decide
 example : (run {} exScanFin).queue = [7] := by decide
-/-- observation (timing, outside C02; the model abstracts deadlines): the scan's map pop reads the
-object's *current* `clientID`. If, between the scan's heap pop and its map pop, the holder REQs the
-message and the pump redelivers the same object to connection 2, the scan's pop succeeds against
-connection 2 — a timeout right after the delivery. The history stays well-formed (the timeout is
-attributed to the connection that holds the message), which is all C02 asks. -/
-def exScanRedeliver : List Op :=
-  [.put 7, .delMapPush 1 7, .heapPush 7, .scanHeapPop 7, .ansMapPop 1 7 (.req 0), .ansFinish 1 7 (.req 0),
-   .delMapPush 2 7, .scanMapPop 7]
-example : (run {} exScanRedeliver).hist =
-    [.timeout 7 2, .deliver 2 7 2, .reqOk 1 7 0, .deliver 1 7 1, .fanout 7 false] := by decide
+/-- the schedule of the former scan-window race (scan heap pop | REQ + redelivery to connection 2 |
+scan map pop → the fresh delivery timed out at once) no longer exists: after the REQ the scan's one
+step takes nothing (here the REQ's heap removal already took the entry; were it still there, the
+step would find the id in the map only if it is in flight again — with its own new deadline). -/
+example : (step (run {} [.put 7, .delMapPush 1 7, .heapPush 7, .ansMapPop 1 7 (.req 0), .ansFinish 1 7 (.req 0),
+    .delMapPush 2 7]) (.scanPop 7)).2 = .reject := by decide
 /-- the invariant rejects a state with one id in two places, and one with an orphan -/
 example : ¬ MInv { queue := [1], map := [1] } := by
   intro h; have := h.one 1; simp [cnt, wsum, isId] at this
